@@ -595,16 +595,38 @@ fn boxed_case(a: &Limbs, b: &Limbs, l: &mut Local) {
     } else {
         vec![Out::v(&sw_a)]
     };
-    check_any(&mut cs, "Boxed+=&Boxed", cls, &acc, guard(|| {
-        let mut x = xa.clone();
-        x += &xb;
-        Out::v(&bw(&x))
-    }));
-    check_any(&mut cs, "Boxed+=Boxed", cls, &acc, guard(|| {
-        let mut x = xa.clone();
-        x += xb.clone();
-        Out::v(&bw(&x))
-    }));
+    if wider {
+        check_any(&mut cs, "Boxed+=&Boxed", cls, &acc, guard(|| {
+            let mut x = xa.clone();
+            x += &xb;
+            Out::v(&bw(&x))
+        }));
+        check_any(&mut cs, "Boxed+=Boxed", cls, &acc, guard(|| {
+            let mut x = xa.clone();
+            x += xb.clone();
+            Out::v(&bw(&x))
+        }));
+    } else {
+        // same precision rules as `&a + &b` when the rhs is not wider: one C15 group with the by-reference operator
+        cs.group();
+        cs.check("&Boxed+&Boxed", cls, &acc[0], guard(|| Out::v(&bw(&(&xa + &xb)))));
+        cs.check("Boxed+=&Boxed", cls, &acc[0], guard(|| {
+            let mut x = xa.clone();
+            x += &xb;
+            Out::v(&bw(&x))
+        }));
+        cs.check("Boxed+=Boxed", cls, &acc[0], guard(|| {
+            let mut x = xa.clone();
+            x += xb.clone();
+            Out::v(&bw(&x))
+        }));
+        cs.check("Boxed::adc_assign (as operator)", cls, &acc[0], guard(|| {
+            let mut x = xa.clone();
+            let c = x.adc_assign(&xb, Limb::ZERO);
+            if c.0 != 0 { panic!("carry") }
+            Out::v(&bw(&x))
+        }));
+    }
     // Wrapping<Boxed> += : sum mod 2^BITS(receiver)
     let accw: Vec<Out> = if wider { vec![Out::v(&sw_a), Out::Panic] } else { vec![Out::v(&sw_a)] };
     check_any(&mut cs, "Wrapping<Boxed>+=", cls, &accw, guard(|| {
@@ -672,16 +694,31 @@ fn boxed_case(a: &Limbs, b: &Limbs, l: &mut Local) {
     } else {
         vec![Out::v(&dw_a)]
     };
-    check_any(&mut cs, "Boxed-=&Boxed", cls, &acc, guard(|| {
-        let mut x = xa.clone();
-        x -= &xb;
-        Out::v(&bw(&x))
-    }));
-    check_any(&mut cs, "Boxed-=Boxed", cls, &acc, guard(|| {
-        let mut x = xa.clone();
-        x -= xb.clone();
-        Out::v(&bw(&x))
-    }));
+    if wider {
+        check_any(&mut cs, "Boxed-=&Boxed", cls, &acc, guard(|| {
+            let mut x = xa.clone();
+            x -= &xb;
+            Out::v(&bw(&x))
+        }));
+        check_any(&mut cs, "Boxed-=Boxed", cls, &acc, guard(|| {
+            let mut x = xa.clone();
+            x -= xb.clone();
+            Out::v(&bw(&x))
+        }));
+    } else {
+        cs.group();
+        cs.check("&Boxed-&Boxed", cls, &acc[0], guard(|| Out::v(&bw(&(&xa - &xb)))));
+        cs.check("Boxed-=&Boxed", cls, &acc[0], guard(|| {
+            let mut x = xa.clone();
+            x -= &xb;
+            Out::v(&bw(&x))
+        }));
+        cs.check("Boxed-=Boxed", cls, &acc[0], guard(|| {
+            let mut x = xa.clone();
+            x -= xb.clone();
+            Out::v(&bw(&x))
+        }));
+    }
     let accw: Vec<Out> = if wider { vec![Out::v(&dw_a), Out::Panic] } else { vec![Out::v(&dw_a)] };
     check_any(&mut cs, "Wrapping<Boxed>-=", cls, &accw, guard(|| {
         let mut x = Wrapping(xa.clone());
